@@ -451,9 +451,113 @@ pub fn rebuild(_fields: &[&str]) -> String
 {
 	"todo".into()
 }
-pub fn diag(_fields: &[&str]) -> String
+fn render_all(errors: &[penne::alpha::Error], units: &[(String, String)]) -> Result<usize, String>
 {
-	"todo".into()
+	// every colour / charset configuration the CLI offers (stdout.rs: StdOut::new)
+	let mut total = 0;
+	for with_color in [false, true]
+	{
+		for charset in [ariadne::CharSet::Unicode, ariadne::CharSet::Ascii]
+		{
+			let ariadne_config = ariadne::Config::default()
+				.with_index_type(ariadne::IndexType::Char)
+				.with_color(with_color)
+				.with_char_set(charset);
+			let config = penne::alpha::error::Config::from(ariadne_config).with_color(with_color);
+			for error in errors
+			{
+				let sources: Vec<(String, String)> = units
+					.iter()
+					.map(|(n, s)| (n.clone(), if s.is_empty() { " ".to_string() } else { s.clone() }))
+					.collect();
+				let r = std::panic::catch_unwind(std::panic::AssertUnwindSafe(|| {
+					let mut cache = ariadne::sources(sources);
+					let report = error.build_report(config);
+					let mut buffer: Vec<u8> = Vec::new();
+					report.write(&mut cache, &mut buffer).map(|_| buffer)
+				}));
+				match r
+				{
+					Ok(Ok(buffer)) =>
+					{
+						total += buffer.len();
+						if !with_color && buffer.windows(2).any(|w| w == b"\x1b[")
+						{
+							return Err(format!("E{}: ANSI escape without colour", error.code()));
+						}
+					}
+					Ok(Err(e)) => return Err(format!("E{}: write failed: {}", error.code(), e)),
+					Err(_) => return Err(format!("E{}: rendering panicked", error.code())),
+				}
+			}
+		}
+	}
+	Ok(total)
+}
+
+fn fnv(data: &[u8]) -> u64
+{
+	let mut h: u64 = 0xcbf29ce484222325;
+	for b in data
+	{
+		h ^= *b as u64;
+		h = h.wrapping_mul(0x100000001b3);
+	}
+	h
+}
+
+/// diag <filename> <source> ...: every diagnostic with its primary location, rendering in all configurations
+pub fn diag(fields: &[&str]) -> String
+{
+	let units = parse_units(fields);
+	let o = compile_units(&units, 1, false);
+	let mut items: Vec<String> = Vec::new();
+	let mut all: Vec<penne::alpha::Error> = Vec::new();
+	if let Some(errors) = o.errors
+	{
+		all.extend(errors.errors);
+	}
+	let n_errors = all.len();
+	all.extend(o.lint_errors);
+	for (i, e) in all.iter().enumerate()
+	{
+		let l = e.verif_location();
+		items.push(format!(
+			"{}{}@{}:{}-{}/{}:{}",
+			if i < n_errors { "D" } else { "L" },
+			e.code(),
+			l.source_filename.replace(' ', "_"),
+			l.span.start,
+			l.span.end,
+			l.line_number,
+			l.line_offset
+		));
+	}
+	let render = match render_all(&all, &units)
+	{
+		Ok(n) => format!("ok:{}", n),
+		Err(e) => format!("FAIL[{}]", e.replace(' ', "_")),
+	};
+	let irhash = match &o.linked_ir
+	{
+		Some(ir) =>
+		{
+			// every module's own IR text (what `emit --out-dir` writes) and the linked text
+			let mut parts: Vec<String> =
+				o.module_irs.iter().map(|m| format!("{:016x}", fnv(m.as_bytes()))).collect();
+			parts.push(format!("{:016x}", fnv(ir.as_bytes())));
+			parts.join("+")
+		}
+		None => "-".to_string(),
+	};
+	format!(
+		"verdict={} stage={} render={} irhash={} diags={}",
+		if o.verdict == "internal" { format!("internal[{}]", o.internal.replace(' ', "_")) } else { o.verdict.clone() },
+		o.stage,
+		render,
+		irhash,
+		items.join(",")
+	)
 }
 pub fn resolved(_fields: &[&str]) -> String
 {
